@@ -181,6 +181,27 @@ func c03Oracle(w *World, sig map[string]string, shape hookShape, declared []*Res
 						}
 					}
 				}
+				// (5b) a cache that has not been filled yet is no view at all: if the hook is
+				// asked before the informer of this kind delivered its first list, what the
+				// store held all through the sync is what was missed
+				if !w.Cache.Synced(h.Inc, res, h.ParkStep) && !oldRevision {
+					for _, co := range storeStable(w, res, sy.StartStep-1, h.ParkStep) {
+						c := controllerOf(co)
+						if c == nil || c.UID != puid || (matches != nil && !matches(parent, res, co)) || (markerOK != nil && !markerOK(co)) {
+							continue
+						}
+						if pns != "" && res.Namespaced && mstr(co, "namespace") != pns {
+							continue
+						}
+						s2 := copySig(sig)
+						s2["cache"] = "not-synced"
+						if v := report(&Violation{Prop: shape.Prop, Class: "controlled-object-not-shown", Sig: s2, Step: h.ParkStep,
+							Detail: fmt.Sprintf("%s: the hook was asked before the %s informer had delivered its first list; %s %s/%s, controlled by the parent all through this sync, is missing from %s", where, res.Kind, res.Kind, mstr(co, "namespace"), mstr(co, "name"), k)}); v != nil {
+							return v
+						}
+					}
+					w.Probe("c03:hook-asked-before-child-cache-synced")
+				}
 			}
 			// (6) children created on the strength of this answer are the desired ones,
 			// placed in the parent's namespace when the answer gave none
